@@ -21,7 +21,8 @@ RULE = ("per-run seed -> a lexicon of words of length 1-5 over a 2-3 letter alph
         "0..3; prefix 0..2). terms_within must be the same set in both layouts, lie between the sets under the strictest and the most "
         "permissive documented reading of the distance, and among live terms equal the set under exactly one reading; FuzzyTerm must match exactly the documents containing such terms; suggest must "
         "return existing terms within the distance, never the queried word, ordered by distance then frequency. "
-        "Non-trivial = both layouts built and >=1 probe with a non-empty expected set; distinct = SHA-256 over both event logs.")
+        "Non-trivial = both layouts built and >=1 probe with a non-empty expected set; distinct = SHA-256 over both event logs."
+        ' 40% of runs draw from all lazy terms_within() iterators in turn (overlapping expansions).')
 ASSUMPTIONS = ["documented distance = Damerau-Levenshtein (optimal string alignment), as the terms_within docstring states",
                "exhaustive enumeration over all word pairs is an input-space technique and is not attempted; the simulator contributes the layout dimension (history), pairs are sampled from the run's lexicon",
                "suggest() ties (same distance, same frequency) may come in any order"]
